@@ -154,7 +154,7 @@ plan("C07", "exploration",
      "Systematic: for small inputs/streams every single split point of the input and of the output, and all pairs of (input chunk, output chunk) sizes from {0,1,2,7,8,9,15,16,17,31,32,33,255,256,257,328,329,big}; "
      "generated histories (refill-before-drain, zero-length buffers, per-call flush changes, late end_of_stream, fresh mapping per chunk) for compression and decompression (valid and corrupted streams), "
      "x levels x wrappers (gzip with FEXTRA/FNAME/FCOMMENT/FHCRC) x cpu levels. Oracle: decode == concatenated input; streaming inflate == one-shot inflate. Non-trivial: >= 3 calls with a boundary inside the data.",
-     lambda tier: [S("C07", 30000), S("C07", 2000, cfg="hist8k")] if tier == "quick" else [S("C07", 150000), S("C07", 15000, cfg="hist8k"), S("C07", 8000, cfg="longhuff")],
+     lambda tier: [S("C07", 48000), S("C07", 2000, cfg="hist8k")] if tier == "quick" else [S("C07", 150000), S("C07", 15000, cfg="hist8k"), S("C07", 8000, cfg="longhuff")],
      assumptions=["after end_of_stream no more input is supplied", "compressed bytes may differ between schedules: only decoded data is compared"])
 
 plan("C06", "fault_enumeration",
